@@ -19,6 +19,17 @@ P.VERTEX_CLASSES["SubSubVertex"] = SubSubVertex
 P.VERTEX_CLASSES["mixed"] = [Vertex, P.SubVertex, SubSubVertex]
 
 
+def _same_uid(cls):
+    """factory: every vertex gets the SAME explicit uid (uids are caller-supplied and nothing enforces uniqueness;
+    identity, not uid, is what tells vertices apart)"""
+    def make(**kw):
+        return cls(uid=424242, **kw)
+    return make
+
+
+P.VERTEX_CLASSES["mixed-sameuid"] = [_same_uid(Vertex), _same_uid(P.SubVertex), _same_uid(SubSubVertex)]
+
+
 def sequences(n):
     """every ordered member list over vertices 1..n (all subsets, all orders), incl. the empty one"""
     out = [()]
@@ -105,11 +116,21 @@ def puml_options(variant, title_tag):
         arrows["U2"] = ["*", ""]
         vtypes["SubSubVertex"] = "entity"
     if title_tag:
-        for cls in (Vertex, P.SubVertex, SubSubVertex):
+        # every configured class has its OWN title format: a title is only right if it was computed with the
+        # options of the vertex's own nearest configured class
+        for cls, fmt in ((Vertex, "t{tag}"), (P.SubVertex, "s{tag}"), (SubSubVertex, "x{tag}")):
             if cls in o:
                 o[cls]["show_attrs"] = ["tag"]
-                o[cls]["title_format"] = "t{tag}"
+                o[cls]["title_format"] = fmt
     return o, {"vtypes": vtypes, "arrows": arrows}
+
+
+def own_title(ob, n, options):
+    """the title the vertex must get: format of its nearest configured class"""
+    for cls in type(ob).__mro__:
+        if cls in options:
+            return options[cls]["title_format"].replace("{tag}", str(n))
+    return None
 
 
 DECL = re.compile(r"^(\w+) (\S+) <<(\w+)>> \{$")
@@ -122,8 +143,8 @@ def puml_probe(w, S, M, variant, title_tag):
     objs = [o for o in w.O[:w.NV + 1] if o is not None]
     for ob in objs:
         ob.tag = w.n_obj(ob)
-    titles = {(f"t{w.n_obj(ob)}" if title_tag else hex(id(ob))): w.n_obj(ob) for ob in objs}
     options, opts = puml_options(variant, title_tag)
+    titles = {(own_title(ob, w.n_obj(ob), options) if title_tag else hex(id(ob))): w.n_obj(ob) for ob in objs}
     res = {"err": "", "none": False, "framed": False, "decls": [], "rels": []}
     text = None
     try:
